@@ -625,6 +625,30 @@ theorem TV.Props.C16.flow_modes_need_flows (mode : TV.Builder.OutMode) (s : TV.S
     TV.Builder.validateFlows mode s = false ↔ (mode = .flows ∨ mode = .dot) ∧ s = .classic := by
   cases mode <;> cases s <;> simp [TV.Builder.validateFlows]
 
+/-- **C16, the defaults are the documented ones** (the manual, `trippy-config-sample.toml`, the `Builder` documentation):
+first-ttl 1, max-ttl 64, max-inflight 24, packet-size 84, payload-pattern 0, initial-sequence 33434, tos 0,
+min- and max-round-duration 1 s, grace-duration 100 ms, read-timeout 10 ms, TCP connect timeout 1 s, 256 samples, 64 flows;
+tui-refresh-rate 100 ms, dns-timeout 5 s, dns-ttl 300 s, 10 report cycles.  The constants are regenerated from
+`trippy-core/src/config.rs` and `trippy-tui/src/config/constants.rs` on every run. -/
+theorem TV.Props.C16.defaults_as_documented :
+    TV.Consts.defaults_DEFAULT_STRATEGY_FIRST_TTL = 1 ∧ TV.Consts.defaults_DEFAULT_STRATEGY_MAX_TTL = 64 ∧
+    TV.Consts.defaults_DEFAULT_STRATEGY_MAX_INFLIGHT = 24 ∧ TV.Consts.defaults_DEFAULT_STRATEGY_PACKET_SIZE = 84 ∧
+    TV.Consts.defaults_DEFAULT_STRATEGY_PAYLOAD_PATTERN = 0 ∧ TV.Consts.defaults_DEFAULT_STRATEGY_INITIAL_SEQUENCE = 33434 ∧
+    TV.Consts.defaults_DEFAULT_STRATEGY_TOS = 0 ∧
+    TV.Consts.defaults_DEFAULT_STRATEGY_MIN_ROUND_DURATION = 1000000000 ∧ TV.Consts.defaults_DEFAULT_STRATEGY_MAX_ROUND_DURATION = 1000000000 ∧
+    TV.Consts.defaults_DEFAULT_STRATEGY_GRACE_DURATION = 100000000 ∧ TV.Consts.defaults_DEFAULT_STRATEGY_READ_TIMEOUT = 10000000 ∧
+    TV.Consts.defaults_DEFAULT_STRATEGY_TCP_CONNECT_TIMEOUT = 1000000000 ∧
+    TV.Consts.defaults_DEFAULT_MAX_SAMPLES = 256 ∧ TV.Consts.defaults_DEFAULT_MAX_FLOWS = 64 ∧
+    TV.Consts.tuic_DEFAULT_TUI_REFRESH_RATE = 100000000 ∧ TV.Consts.tuic_DEFAULT_DNS_TIMEOUT = 5000000000 ∧
+    TV.Consts.tuic_DEFAULT_DNS_TTL = 300000000000 ∧ TV.Consts.tuic_DEFAULT_REPORT_CYCLES = 10 := by decide
+
+/-- the default configuration is one the command line's own validators accept -/
+theorem TV.Props.C16.default_timing_accepted :
+    TV.Builder.validateTiming
+      (TV.Builder.Timing.mk TV.Consts.defaults_DEFAULT_STRATEGY_READ_TIMEOUT TV.Consts.defaults_DEFAULT_STRATEGY_MIN_ROUND_DURATION
+        TV.Consts.defaults_DEFAULT_STRATEGY_MAX_ROUND_DURATION TV.Consts.defaults_DEFAULT_STRATEGY_GRACE_DURATION
+        TV.Consts.tuic_DEFAULT_TUI_REFRESH_RATE TV.Consts.tuic_DEFAULT_REPORT_CYCLES) = true := by decide
+
 #print axioms TV.Props.C16.layer_cli
 #print axioms TV.Props.C16.layer_file
 #print axioms TV.Props.C16.layer_default
@@ -688,3 +712,5 @@ theorem TV.Props.C16.flow_modes_need_flows (mode : TV.Builder.OutMode) (s : TV.S
 #print axioms TV.Props.C16.timing_accepted_iff
 #print axioms TV.Props.C16.accepted_timing_is_sane
 #print axioms TV.Props.C16.flow_modes_need_flows
+#print axioms TV.Props.C16.defaults_as_documented
+#print axioms TV.Props.C16.default_timing_accepted
